@@ -3,7 +3,11 @@ Deciding method: (proof, K3) Lean theorems about the writer protocol for ALL cal
 writer_entry_pos, writer_entry_inline_pos), tied to the code by replaying the recorded call sequence of every real
 decompiler run through the Lean writer (text and map must be identical); (validation) which op a statement belongs to
 is decided by unmodelled graph passes and checked per input: the emitted text is compiled by the real compiler and the
-ops related by the proven checker must sit on the same line in both maps."""
+ops related by the proven checker must sit on the same line in both maps.
+SsbScript path (also the fallback text of the ExplorerScript decompiler), proof for ALL routine sets and prefixes: the
+character-level Lean model ESV.SsbScript.Text.decompileText (text, recorded add_opcode calls, position marks) is compared
+EXACTLY with SsbScriptSsbDecompiler.convert(prefix=…) (channel `ssbstext`); ESV.C09.ssbs_entry_per_op,
+ssbs_entry_points_at_statement, ssbs_line_of_next are theorems about that model."""
 from __future__ import annotations
 
 import json
@@ -11,13 +15,85 @@ import os
 from collections import Counter
 from typing import Any
 
+import random
+
 from .. import core, escommon, decomp_common as dc
+from .. import impl_ssbs_text as ist
 from ..gen.programs import Cfg
 from . import c02
 
-MODULES = ["ESV.Props.C09", "ESV.Props.C01"]
+MODULES = ["ESV.Props.C09", "ESV.Props.C01", "ESV.Props.C09Ssbs"]
 THEOREMS = ["ESV.C09.writer_line_inv", "ESV.C09.writer_entry_pos", "ESV.C09.writer_entry_inline_pos", "ESV.C09.inv_step", "ESV.C09.writer_no_entry_for_markers",
-            "ESV.Beh.validate_sound"]
+            "ESV.Beh.validate_sound",
+            "ESV.C09.ssbs_entry_per_op", "ESV.C09.ssbs_entry_per_op_all", "ESV.C09.ssbs_entry_points_at_statement_at",
+            "ESV.C09.ssbs_entry_points_at_statement", "ESV.C09.ssbs_line_of_next", "ESV.C09.ssbs_entry_line_in_text",
+            "ESV.C09.ssbs_text_prints_ast", "ESV.C09.ssbs_text_error_iff",
+            "ESV.SsbScript.Text.decompileText_good", "ESV.SsbScript.Text.entry_pos", "ESV.SsbScript.Text.decompileText_vs_decompile"]
+
+# prefixes of the channel `ssbstext` besides "" and the fallback banner: with / without a final newline, blank lines
+SSBSTEXT_PREFIXES = ["// x\n", "/* a\n\n b */ ", "\n\n", "x", "// ünï\n//\n"]
+
+
+def ssbstext_cases(rnd: random.Random, sets: list[dict], n_random: int, stats: Counter) -> list[dict]:
+    """the routine sets of this run (compiler-shaped, incl. the ones with U+2028 / U+0085 put into a string) plus `gen_set`
+    random sets (every fifth with one well-formedness clause broken: error classes, fewer infos than routines, duplicate
+    offsets), each once without a prefix and once with one (alternately the fallback banner and a short one)"""
+    from ..gen import ssb as gen_ssb
+    base: list[tuple[dict, str]] = [(s_["rs"], "program") for s_ in sets]
+    for i in range(n_random):
+        x = gen_ssb.gen_set(rnd)
+        tag = "gen_set"
+        if i % 5 == 4:
+            x, t = gen_ssb.illformed(rnd, x)
+            tag = "gen_set" if t == "unchanged" else "illformed"
+        base.append((x, tag))
+    out = []
+    for i, (x, tag) in enumerate(base):
+        stats["ssbstext_src_" + tag] += 1
+        out.append({"rs": x, "prefix": "", "src": tag})
+        out.append({"rs": x, "prefix": ist.FALLBACK_BANNER if i % 2 == 0 else rnd.choice(SSBSTEXT_PREFIXES), "src": tag})
+    return out
+
+
+def ssbstext_oracle(x: dict, d: dict) -> list[tuple[str, str]]:
+    """the property read on the real output of SsbScriptSsbDecompiler.convert: keys are input offsets; the entry of an op
+    names a line of the text that is blank up to the column and continues with the op's name and `(`; every op has an entry.
+    Only evaluated where the reading is unambiguous: as many infos as routines, offsets pairwise different."""
+    flat = [o for r in x["ops"] for o in r]
+    offs = [o["off"] for o in flat]
+    if len(set(offs)) != len(offs) or len(x["infos"]) < len(x["ops"]):
+        return []
+    bad: list[tuple[str, str]] = []
+    lines = d["text"].split("\n")
+    m = {e[0]: (e[1], e[2]) for e in d["map"]}
+    for k in m:
+        if k not in offs:
+            bad.append(("ssbs_key_not_an_input_offset", f"source map key {k} is not the offset of an input op"))
+    for o in flat:
+        if o["off"] not in m:
+            bad.append(("ssbs_op_without_entry", f"input op {o['off']} ({o['name']}) is printed as a statement but has no source map entry"))
+            continue
+        line, col = m[o["off"]]
+        if not (0 <= line < len(lines)):
+            bad.append(("ssbs_entry_line_outside_text", f"op {o['off']}: line {line} is outside the text ({len(lines)} lines)"))
+        elif lines[line][:col].strip(" ") != "" or not lines[line][col:].startswith(o["name"] + "("):
+            bad.append(("ssbs_entry_not_at_statement_start", f"op {o['off']} ({o['name']}): line {line} column {col} is {lines[line]!r}"))
+    return bad
+
+
+def ssbstext_compare(d: dict, m: dict) -> str | None:
+    """exact comparison of the real answer `d` with the Lean model's answer `m`; None = equal"""
+    if "error" in d:
+        return None if m.get("err") == d["error"] else f"real code raises {d['error']}, model: {str(m)[:200]}"
+    if "err" in m or "error" in m:
+        return f"model answers {str(m)[:200]}, the real code succeeds"
+    for what, a, b in (("text", d["text"], m.get("text")), ("add_opcode calls", d["calls"], m.get("entries")),
+                       ("serialized map", d["map"], m.get("map")), ("position marks", d["marks"], m.get("marks"))):
+        if a != b:
+            return f"{what} differ: real {str(a)[:300]!r} model {str(b)[:300]!r}"
+    if not d.get("macros_empty"):
+        return "the real source map has macro entries"
+    return None
 
 
 def traced_many(args: list[dict]) -> list[dict]:
@@ -175,8 +251,48 @@ def run(run: core.Run) -> int:
             a["twice"] = (i % 7 == 6) and not a["ssbs"]
         chunks = [args[i:i + 8] for i in range(0, len(args), 8)]
         outs = pool.map("harness.props.c09:traced_many", chunks, timeout=60)
+        # channel ssbstext: the SsbScript decompiler's text and source map, character by character
+        tcases = ssbstext_cases(random.Random(run.rng.getrandbits(48)), sets, 1500 if run.tier == "quick" else 12000, cnt)
+        tchunks = [tcases[i:i + 50] for i in range(0, len(tcases), 50)]
+        touts = pool.map("harness.impl_ssbs_text:decompile_text_many", tchunks, timeout=60)
+        banner = pool.map("harness.impl_ssbs_text:fallback_banner_in_repo", [None], timeout=30)[0]
     finally:
         pool.close()
+    if not isinstance(banner, dict) or banner.get("banner") != ist.FALLBACK_BANNER:
+        run.broken_tie("correspondence C09: the fallback banner of ExplorerScriptSsbDecompiler.convert is not the prefix the channel ssbstext uses",
+                       {"channel": "ssbstext", "repo": banner, "harness": ist.FALLBACK_BANNER})
+    treal: list[Any] = []
+    for ch, o in zip(tchunks, touts):
+        treal += o if isinstance(o, list) and len(o) == len(ch) else [{"__noanswer__": True} for _ in ch]
+    tmodel = drv.batch_parallel([{"op": "ssbstext.decompile", "set": c["rs"], "prefix": c["prefix"]} for c in tcases], jobs)
+    t_mism = t_viol = 0
+    for c, d, m in zip(tcases, treal, tmodel):
+        if "__noanswer__" in d:
+            cnt["ssbstext_no_answer"] += 1
+            continue
+        cnt["ssbstext_cases"] += 1
+        cnt["ssbstext_prefix_" + ("none" if c["prefix"] == "" else "banner" if c["prefix"] == ist.FALLBACK_BANNER else "other")] += 1
+        bad_t: list[tuple[str, str]] = []
+        if "error" in d:
+            cnt["ssbstext_error_" + d["error"]] += 1
+        else:
+            pk = [p for r in c["rs"]["ops"] for o in r for p in o["params"] if isinstance(p, dict)]
+            cnt["ssbstext_with_multiline_string"] += int(any("\n" in p.get("s", "") or any("\n" in kv[1] for kv in p.get("ls", [])) for p in pk))
+            cnt["ssbstext_with_language_string"] += int(any("ls" in p for p in pk))
+            cnt["ssbstext_with_position_mark"] += int(bool(d["marks"]))
+            if c["src"] != "illformed":
+                bad_t = ssbstext_oracle(c["rs"], d)
+        if bad_t:
+            t_viol += 1
+            run.violation(bad_t[0][0], bad_t[0][1], {"channel": "ssbstext", "rs": c["rs"], "prefix": c["prefix"], "ssbs": True,
+                                                     "text": d["text"], "map": d["map"], "all": bad_t[:6]})
+        why = ssbstext_compare(d, m)
+        if why is not None:
+            t_mism += 1
+            if t_mism <= 2:
+                run.broken_tie("correspondence C09: the Lean text model of the SsbScript decompiler and SsbScriptSsbDecompiler.convert differ: " + why,
+                               {"channel": "ssbstext", "rs": c["rs"], "prefix": c["prefix"], "real": {k: d.get(k) for k in ("text", "calls", "map", "marks", "error")},
+                                "model": m})
     res: list[Any] = []
     for ch, o in zip(chunks, outs):
         res += o if isinstance(o, list) else [{"error": "NoAnswer", "msg": "", "site": ""} for _ in ch]
@@ -235,12 +351,19 @@ def run(run: core.Run) -> int:
     cov = {
         "explanation": "proof: writer protocol theorems for all call sequences (line counter = 1 + newlines written; an entry recorded before a statement names the "
                        "line and column where its text begins, also for multi-line strings; inline entries for elseif headers), tied to the code by replaying every "
-                       "recorded real call sequence through the Lean writer. validation per input: keys are input offsets, entries sit at statement starts, every "
+                       "recorded real call sequence through the Lean writer; on the SsbScript path (also the fallback text) the whole decompiler is modelled at "
+                       "character level, tied by exact comparison, and the entry theorems are proved for all routine sets and prefixes. validation per input: keys are input offsets, entries sit at statement starts, every "
                        "printed op has an entry, and the op the proven checker relates to it after recompiling the text sits on the same line.",
         "evaluations": len(args), "distinct_nontrivial": core.distinct(a["rs"]["ops"] for a in args),
         "rule": "well-formed compiler-shaped routine sets (nested blocks, loops, switches, multi-line strings and language strings at all depths, message switches), decompiled by the ExplorerScript decompiler (structured and fallback output) and by the SsbScript decompiler",
         "samples": [{"rs": args[0]["rs"], "map": res[0].get("source_map", {}).get("map") if isinstance(res[0], dict) else None}],
         "outcomes": dict(cnt), "writer_replay_mismatches": mism, "oracle_violations": n_viol,
+        "ssbstext": {"explanation": "SsbScript decompiler (= fallback text): Lean model decompileText compared exactly (text, add_opcode calls in recording order, "
+                                    "serialized map in dict order, position marks, exception class) with SsbScriptSsbDecompiler.convert(prefix) on this run's routine "
+                                    "sets and gen_set random sets (negative offsets, gaps, alias routines, all parameter kinds, multi-line and language strings, "
+                                    "position marks, every fifth ill-formed), each without and with a prefix (fallback banner / short prefixes); theorems "
+                                    "ssbs_entry_per_op, ssbs_entry_points_at_statement, ssbs_line_of_next hold for all routine sets and prefixes",
+                     "evaluations": cnt["ssbstext_cases"], "mismatches": t_mism, "oracle_violations": t_viol},
         "obligations": aud["obligations"], "discharged": aud["discharged"] if prep["proofs_ok"] else 0, "theorems": THEOREMS,
     }
     return run.finish("other", cov, ["op-to-statement attribution depends on unmodelled graph passes: validated per input only",
@@ -249,6 +372,16 @@ def run(run: core.Run) -> int:
 
 def replay(run: core.Run, path: str) -> int:
     data = json.load(open(path))["replay"]
+    if data.get("channel") == "ssbstext":
+        pool = core.Pool(1)
+        try:
+            d = pool.map("harness.impl_ssbs_text:decompile_text_many", [[{"rs": data["rs"], "prefix": data.get("prefix", "")}]], timeout=60)[0][0]
+        finally:
+            pool.close()
+        bad = [] if "error" in d else ssbstext_oracle(data["rs"], d)
+        for k, w in bad:
+            print("VIOLATION-REPLAY", k, w)
+        return 1 if bad else 0
     a = {"rs": data["rs"], "ssbs": data.get("ssbs", False)}
     pool = core.Pool(1)
     try:
